@@ -37,6 +37,7 @@ CHECK = {
             "accepted or refused a set value (unset/null accepted cases are trivial); distinct by case line",
     "trusted_base": ["go/ast pattern matcher harness/common/c15_schema.go (fail-closed: unmatched references become kind custom)",
                      "statement recognisers harness/common/c15_util.go for SetIfNotDefault, applyIdentityJSON, Manager.LoadJSONFileAndEnv/ApplyEnvVars (exact shapes; anything else is '?', which the model cannot interpret)",
+                     "statement classifier harness/common/c15_seq.go for the per-section call sequences (a statement without return = assignment; anything unrecognised = unknown, on which the interpreter is stuck)",
                      "statement-shape recognisers harness/common/c15_codec.go (regular expressions over the normalised source of whole statement windows; no match = custom) and c15_validate.go (expression language of Validate conjuncts; no match = opaque)",
                      "library codecs: NewMultiaddr/String, peer.Decode/Encode, hex and base64 decode/encode, crypto.UnmarshalPrivateKey/Bytes round-trip what they accept (like time.ParseDuration/String); integer casts uint <-> goleveldb.Compression/Strict preserve the value",
                      "reflection on the exported Config struct field named by the translator for eff/eff2",
@@ -47,6 +48,7 @@ CHECK = {
     "assumptions": ["an empty environment variable means 'not set' (not counted as a setting)",
                     "identity.json is never displayed (config.Identity has no ToDisplayJSON), so its private_key needs no hidden tag",
                     "Identity.ApplyEnvVars / ToJSON are only called on an Identity that holds a private key (they dereference a nil key otherwise; every caller loads or Default()s first)",
+                    "likewise raft.Config, observations.MetricsConfig and TracingConfig: ApplyEnvVars / ToJSON of a never-initialised object dereference nil (Validate and LoadJSON never panic in any state; notes Round 8b, proposal)",
                     "peer IDs and keys are abstracted to the index of their key pair: peer.IDFromPublicKey is injective on the generated pairs",
                     "an opaque Validate conjunct that reads no Config field a JSON key is loaded into (cluster isRPCPolicyValid(cfg.RPCPolicy)) has the same value for every file; the default case of every run observes that it does not fire",
                     "DisplayJSON masks top-level struct fields only: theorem table_no_nested_hidden keeps every hidden tag at the top level"],
@@ -87,7 +89,13 @@ META = {
             "assigns exactly the non-zero values; sind_arm_is_loadScalar, sind_no_arm_drops), the statement sequence of applyIdentityJSON (gen_ident_apply: its interpretation "
             "equals the model's apply for all inputs), the call order of Manager.LoadJSONFileAndEnv and the reach of Manager.ApplyEnvVars (gen_file_env_order, "
             "table_manager_env_reach); SetIfNotDefault and ParseDurations are also driven directly per Go type / argument list, and restapi's libp2p identity "
-            "(all-or-none, ID matches key: rest_accept_iff, rest_roundtrip) against the real rest.Config.",
+            "(all-or-none, ID matches key: rest_accept_iff, rest_roundtrip) against the real rest.Config. "
+            "Round 8b: for EVERY section the statements of LoadJSON, ApplyEnvVars and the apply function (helper load functions inlined) are regenerated as event "
+            "sequences (unmarshal, Default, assignments, checked fallible steps, unchecked errors, early returns, return Validate()) and interpreted by the model under an oracle "
+            "(which step fails, which guard fires, what Validate says): load_shape_sound / env_shape_sound (a well-shaped section either refuses or has started from the defaults - "
+            "ApplyEnvVars: kept the loaded values - executed every assignment, dropped no error and was validated), table_section_seqs (decide: all 15 sections are well-shaped; "
+            "a helper-scoped early return only in restapi's tlsOptions), gen_sections_sound, with refutations for a missing Validate, an early return in a helper (seeded C15f), "
+            "a dropped error (639679f), a missing Default and a Default inside ApplyEnvVars.",
     "note": "Trusted: Lean kernel (+propext, Classical.choice, Quot.sound), the go/ast translator's pattern matcher (fail-closed), the harness "
             "(reflection on Config fields, value classification), Go's time and encoding/json. Known findings on the unchanged tree: K11 "
             "(booleans cannot be set to false under SetIfNotDefault/mergo), K12 (explicit empty string/list replaced by the default). Found by this "
